@@ -56,6 +56,9 @@ func RandomPacket(e *Env, r *rand.Rand, maxHops int, kinds []string) *APkt {
 		a.Seg = []int{2}
 		a.Infos = []AInfo{{Cons: r.Intn(6) != 0}}
 		a.Hops = []AHop{{In: 0, Eg: pick(r, ids), Vp: r.Intn(4) != 0}, {}}
+		if r.Intn(4) == 0 {
+			a.Hops[0].In = pick(r, ids)
+		}
 		if r.Intn(3) == 0 {
 			a.Hops[1] = AHop{In: pick(r, ids), Eg: pick(r, ids), Ia: r.Intn(2) == 0, Ea: r.Intn(2) == 0}
 		}
